@@ -26,7 +26,7 @@ func genLen(r *Rng, min, max int) int {
 	}
 	return n
 }
-func genBytes(r *Rng, min, max int) []byte { return r.Bytes(genLen(r, min, max)) }
+func genBytes(r *Rng, min, max int) []byte { return r.BytesE(genLen(r, min, max)) }
 
 var attrTypeEdges = []int{0, 1, 13, 14, 15, 127, 128, 142, 255, 256, 16383, 16384, 32767}
 
@@ -60,9 +60,9 @@ var spiEdges = []int{0, 1, 4, 8, 247, 248, 251, 252, 255}
 
 func genSpi(r *Rng) []byte {
 	if r.Chance(1, 2) {
-		return r.Bytes(r.Pick(spiEdges))
+		return r.BytesE(r.Pick(spiEdges))
 	}
-	return r.Bytes(r.Range(0, 255))
+	return r.BytesE(r.Range(0, 255))
 }
 
 func genProposal(r *Rng) *SX {
@@ -91,9 +91,9 @@ func genProposal(r *Rng) *SX {
 
 func genSelector(r *Rng) *SX {
 	if r.Bool() {
-		return L(A("sel"), Nn(7), Nn(uint64(r.U8e())), Nn(uint64(r.U16e())), Nn(uint64(r.U16e())), Hx(r.Bytes(4)), Hx(r.Bytes(4)))
+		return L(A("sel"), Nn(7), Nn(uint64(r.U8e())), Nn(uint64(r.U16e())), Nn(uint64(r.U16e())), Hx(r.BytesE(4)), Hx(r.BytesE(4)))
 	}
-	return L(A("sel"), Nn(8), Nn(uint64(r.U8e())), Nn(uint64(r.U16e())), Nn(uint64(r.U16e())), Hx(r.Bytes(16)), Hx(r.Bytes(16)))
+	return L(A("sel"), Nn(8), Nn(uint64(r.U8e())), Nn(uint64(r.U16e())), Nn(uint64(r.U16e())), Hx(r.BytesE(16)), Hx(r.BytesE(16)))
 }
 
 // settable EAP-AKA' attributes with the value sizes the setter accepts
@@ -101,15 +101,15 @@ func genAkaAttr(r *Rng, ty int) *SX {
 	var v []byte
 	switch ty {
 	case 1, 2, 11:
-		v = r.Bytes(16)
+		v = r.BytesE(16)
 	case 24:
-		v = r.Bytes(2)
+		v = r.BytesE(2)
 	case 3:
-		v = r.Bytes(r.Range(4, 16))
+		v = r.BytesE(r.Range(4, 16))
 	case 23:
-		v = r.Bytes(r.Pick([]int{0, 1, 2, 3, 4, 5, 11, 16, 100, 250, 251, 252, 253, 255, 256, 300, r.Range(0, 300)}))
+		v = r.BytesE(r.Pick([]int{0, 1, 2, 3, 4, 5, 11, 16, 100, 250, 251, 252, 253, 255, 256, 300, r.Range(0, 300)}))
 	case 134:
-		v = r.Bytes(r.Pick([]int{0, 20, 32}))
+		v = r.BytesE(r.Pick([]int{0, 20, 32}))
 	}
 	return L(A("at"), Nn(uint64(ty)), Hx(v))
 }
@@ -222,7 +222,7 @@ func genHeader(r *Rng) *SX {
 	if r.Bool() {
 		ex = uint64(r.Range(34, 37))
 	}
-	return L(Hx(r.Bytes(8)), Hx(r.Bytes(8)), Nn(uint64(r.Intn(16))), Nn(uint64(r.Intn(16))), Nn(ex), Nn(uint64(r.U8e())),
+	return L(Hx(r.BytesE(8)), Hx(r.BytesE(8)), Nn(uint64(r.Intn(16))), Nn(uint64(r.Intn(16))), Nn(ex), Nn(uint64(r.U8e())),
 		Nn(r.U64()&0xffffffff), Nn(uint64(r.U8e())))
 }
 
@@ -235,7 +235,7 @@ func genPayloadList(r *Rng) *SX {
 	}
 	if r.Chance(1, 60) {
 		big := r.Pick([]int{65531, 65530, 65000, 4096})
-		ps.Add(L(A("nonce"), Hx(r.Bytes(big))))
+		ps.Add(L(A("nonce"), Hx(r.BytesE(big))))
 	}
 	return ps
 }
